@@ -80,10 +80,30 @@ func cmdVC(args []string) {
 			}
 		}
 	}
+	for _, pat := range fs.Args() {
+		if i := strings.Index(pat, "$lit"); i >= 0 {
+			for _, k := range w.sortedFuncKeys() {
+				if strings.HasSuffix(k, pat[:i]) {
+					keys = append(keys, k+pat[i:])
+				}
+			}
+		}
+	}
 	sort.Strings(keys)
 	for _, k := range keys {
-		fi := w.Funcs[k]
-		res := genFunc(w, fi, *mode)
+		var res *FuncResult
+		if i := strings.Index(k, "$lit"); i >= 0 {
+			n := 0
+			fmt.Sscanf(k[i+4:], "%d", &n)
+			li, fl := litInfo(w, w.Funcs[k[:i]], n)
+			if li == nil {
+				fmt.Println("no such literal", k)
+				continue
+			}
+			res = genLit(w, li, fl)
+		} else {
+			res = genFunc(w, w.Funcs[k], *mode)
+		}
 		fmt.Printf("== %s  (%d obligations, abstracted=%v)\n", shortName(k), len(res.Obls), res.Abstracted)
 		if res.Err != "" {
 			fmt.Println("   ERROR:", res.Err)
